@@ -48,6 +48,8 @@ CHECKS = {
             "Every encoder output produced in the run is validated against its input by two independent decoders; no claim about the encoders beyond the mappings generated (all offset-gap / line-gap classes of the statement).", "7/C19"),
     "C13": ("translation_validation", "per-output validation of write_bytecode_file: the target interpreter loads each written file (canonical equality with the original), xdis re-reads it, and the target executes original and rewritten file and the behaviours are compared",
             "Each written file is validated individually by its own target interpreter (2.7, 3.6-3.13); a writer raise counts as refused; NaN constants compare as 'is a NaN'. No claim about files the generators did not produce.", "7/C13"),
+    "C18": ("exploration", "history monitoring against a fresh-process model (forked child per history) + invariant monitor: SHA-1 state digests of every module-level table before/after each public operation",
+            "Probe results after seeded histories equal the same probe in a fresh process, repeats are stable and no tracked table changes, on the histories generated (explicit opcode remapping excluded).", "7/C18"),
 }
 
 PENDING = {}
